@@ -126,14 +126,15 @@ def probe (layer : Nat) (f : Mach) : Mach where
     { o with w := { o.w with trace := .ret layer o.res :: o.w.trace } }
   cancel := f.cancel
 
-/-- invocation counter (specification device, not a wrapper of the library) -/
-def counted (f : Mach) : Mach where
-  σ := Nat × f.σ
-  init := (0, f.init)
-  call := fun (n, s) dead arg w =>
+/-- recorder of the results of every execution (specification device, not a wrapper of the
+    library): the log holds the results of the calls made to `f`, latest first -/
+def logged (f : Mach) : Mach where
+  σ := List Res × f.σ
+  init := ([], f.init)
+  call := fun (l, s) dead arg w =>
     let o := f.call s dead arg w
-    { res := o.res, st := (n + 1, o.st), w := o.w }
-  cancel := fun (n, s) => (n, f.cancel s)
+    { res := o.res, st := (o.res :: l, o.st), w := o.w }
+  cancel := fun (l, s) => (l, f.cancel s)
 
 /-! ### Once (worker.go:157, operation.go:59, producer.go:249, process.go:225, handler.go Once,
     future.go Once = ft.OnceDo = adt.Mnemonize, ft.Once) -/
